@@ -163,7 +163,12 @@ def is_mutable_collection(type_: Any) -> bool:
 @cached
 def has_check_type_in_type(type_: type, check_type: type) -> bool:
     """Return True if a given type is a subclass of check_type or a complex
-    type that has a subclass of check_type among it's arguments."""
+    type that has a subclass of check_type among it's arguments.
+
+    NewType's are transparent: the wrapped type is checked.
+    """
+
+    type_ = unwrap_newtype(type_)
 
     try:
         if issubclass(type_, check_type):
@@ -196,6 +201,9 @@ def _is_valid_child_field_type(
     caught in the outer function.
     """
 
+    # NewType's are transparent at any nesting level
+    type_ = unwrap_newtype(type_)
+
     if not allow_sequence and is_optional(type_):
         # We do not allow optionals within sequences
         # So check this early
@@ -207,7 +215,9 @@ def _is_valid_child_field_type(
         # So easy check
 
         try:
-            if not all(issubclass(t, node_base_type) for t in args if t is not type(None)):
+            if not all(
+                issubclass(unwrap_newtype(t), node_base_type) for t in args if t is not type(None)
+            ):
                 return InvalidTypeReason.NON_NODE_TYPE
         except TypeError:
             return InvalidTypeReason.NON_NODE_TYPE
